@@ -30,6 +30,10 @@ def run(ctx):
     dsl.verify(ctx, repo, C.registry(), "C09", C.RPD + ".log_pdf", C.h_log_pdf, expect_covers=["log_pdf"], concretise=_concretise)
     dsl.verify(ctx, repo, C.sample_registry(), "C09", C.RPD + ".sample", C.h_sample, expect_covers=["sample.top", "sample.inner"], concretise=_concretise)
     dsl.verify(ctx, repo, dsl.Registry(), "C09", "phyclone.smc.utils.interleave_lists", C.h_interleave, expect_covers=["interleave.ran"], concretise=_concretise)
+    from contracts import c06_graph as G
+
+    # log_count reads the sizes through Tree.get_subtree_data_len / get_data_len / get_descendants: their contracts are part of C09's chain
+    G.verify_readers_for(ctx, repo, "C09", ("subtree-data-len", "read.get-data", "read.descendants"))
     ctx.trust(*C.registry().assumed)
     ctx.trust(*C.sample_registry().assumed)
     ctx.assume("A-REAL; lgamma uninterpreted (log n! = lgamma(n+1))")
